@@ -123,9 +123,12 @@ def C16(ctx):
         "domain: the hash passed to the cache is a function of the key (different keys may collide)",
         "cache eviction and growth are forced by the rsdd_verif initial-capacity hook (2^0 .. 2^4 slots)",
     ]
-    model_check(ctx, "Lru", "MC_Lru.cfg", "Lru (as coded) refines LossyMap: 3 keys, 4 hashes, cap 2^0->2^2", workers=6)
+    model_check(ctx, "Lru", "MC_Lru.cfg", "Lru (as coded) refines LossyMap, every entry in the slot of its own hash (OwnSlot): 3 keys, 4 hashes, cap 2^0->2^2", workers=6)
     # a memo in front of a deterministic function is transparent iff its key determines the answer: KeySound
     ite_key_checks(ctx)
+    # proof (TLAPS, any key set, any table sizes, any slot function): a direct-mapped cache with full-key comparison whose growth puts
+    # every surviving entry into its own slot (invariant OwnSlot of Lru.tla, model-checked above) answers nothing or the last value stored
+    proof_check(ctx, "LruProof", "a direct-mapped cache with full-key comparison is a LossyMap for any keys, sizes and slot function")
     # proof (TLAPS, any argument space, any eviction policy): given KeySound, a cache that may lose any entry at any time never changes a result
     proof_check(ctx, "MemoProof", "an operation behind a lossy cache keyed by a sound key returns F(args) on every call, whatever was evicted before")
     gen_and_replay(ctx, "GenLru", "GenLru.cfg" if ctx.quick else "GenLru_big.cfg", "lru",
